@@ -161,16 +161,25 @@ Proof.
 Qed.
 
 (* once the side has ended (it reports closed, or its channel is closed) no wait keeps waiting: value or EOFError *)
-Theorem ended_nobody_waits s id : closed (base s) = true \/ chan_open (base s) = false -> wait_outcome s id <> WKeepsWaiting.
+Theorem ended_nobody_waits rc s id : closed_stream_raises_eof rc = true ->
+  closed (base s) = true \/ chan_open (base s) = false -> wait_outcome rc s id <> WKeepsWaiting.
 Proof.
-  intros H. unfold wait_outcome. destruct (existsb (Nat.eqb id) (got s)); [discriminate|].
+  intros Hf H. unfold wait_outcome. rewrite Hf. destruct (existsb (Nat.eqb id) (got s)); [discriminate|].
   destruct (existsb (Nat.eqb id) (failed s)); [discriminate|].
   destruct H as [H|H]; rewrite H; cbn; [discriminate|]. rewrite orb_true_r. discriminate.
+Qed.
+(* on a tree whose closed stream does not raise, a request pending when the side ended waits for ever *)
+Theorem ended_waits_refuted rc s id : closed_stream_raises_eof rc = false -> ~ In id (got s) -> ~ In id (failed s) -> wait_outcome rc s id = WKeepsWaiting.
+Proof.
+  intros Hf Hg Hx. unfold wait_outcome. rewrite Hf.
+  destruct (existsb (Nat.eqb id) (got s)) eqn:E; [apply existsb_eqb_in in E; contradiction|].
+  destruct (existsb (Nat.eqb id) (failed s)) eqn:E2; [apply existsb_eqb_in in E2; contradiction|].
+  now destruct (closed (base s) || negb (chan_open (base s))).
 Qed.
 
 (* a request issued after the end fails with EOFError and leaves nothing registered *)
 Theorem issue_after_end P hr rc s id w : chan_open (base s) = false ->
-  let s' := rstep P hr rc (RIssue id w) s in pend s' = pend s /\ (~ In id (got s) -> wait_outcome s' id = WEofError).
+  let s' := rstep P hr rc (RIssue id w) s in pend s' = pend s /\ (~ In id (got s) -> wait_outcome rc s' id = WEofError).
 Proof.
   intros H. cbn. rewrite H. cbn. split; [reflexivity|]. intros Hn. unfold wait_outcome. cbn [got failed].
   destruct (existsb (Nat.eqb id) (got s)) eqn:E; [apply existsb_eqb_in in E; contradiction|].
@@ -186,12 +195,12 @@ Proof.
   - destruct (existsb (Nat.eqb id) (pend s)); cbn; [|auto]. intros [<-|H]; auto.
   - auto.
 Qed.
-Theorem value_only_if_replied P hr rc : forall es s id, wait_outcome (rruns P hr rc es s) id = WValue -> In id (got s) \/ replied es id.
+Theorem value_only_if_replied P hr rc : forall es s id, wait_outcome rc (rruns P hr rc es s) id = WValue -> In id (got s) \/ replied es id.
 Proof.
   intros es s id H.
   assert (G : In id (got (rruns P hr rc es s))).
   { unfold wait_outcome in H. destruct (existsb (Nat.eqb id) (got (rruns P hr rc es s))) eqn:E; [now apply existsb_eqb_in|].
-    destruct (existsb _ (failed _)); [discriminate|]. destruct (_ || _); discriminate. }
+    destruct (existsb _ (failed _)); [discriminate|]. destruct (_ || _); [destruct (closed_stream_raises_eof rc)|]; discriminate. }
   clear H. revert s G. induction es as [|e t IH]; intros s G; cbn in G; [now left|].
   destruct (IH _ G) as [H|H].
   - destruct (got_step _ _ _ _ _ _ H) as [H'|H']; [now left|right; left; exact H'].
@@ -201,10 +210,10 @@ Qed.
 (* the two together with the first sentence: after ANY history in which the side closed, was told to close or met the failure while
    serving (last entry e with must_end), every request ever issued on it has its value (if the peer's reply was dispatched) or
    fails with EOFError - none waits on *)
-Theorem ends_and_nobody_waits P hr rc es e id : core_ok P = true -> must_end P e = true ->
-  let s := rstep P hr rc (RBase e) (rruns P hr rc es rfresh) in wait_outcome s id <> WKeepsWaiting.
+Theorem ends_and_nobody_waits P hr rc es e id : core_ok P = true -> closed_stream_raises_eof rc = true -> must_end P e = true ->
+  let s := rstep P hr rc (RBase e) (rruns P hr rc es rfresh) in wait_outcome rc s id <> WKeepsWaiting.
 Proof.
-  intros HP Hm. cbn zeta. apply ended_nobody_waits. left. cbn [rstep base].
+  intros HP Hf Hm. cbn zeta. apply ended_nobody_waits; [exact Hf|]. left. cbn [rstep base].
   assert (B : base (rruns P hr rc es rfresh) = runs P hr (fold_right (fun x acc => match x with RBase e0 => e0 :: acc | _ => acc end) [] es) fresh).
   { assert (G : forall s, base (rruns P hr rc es s) = runs P hr (fold_right (fun x acc => match x with RBase e0 => e0 :: acc | _ => acc end) [] es) (base s)).
     { induction es as [|x t IH]; intros s; [reflexivity|]. cbn [rruns fold_left]. change (fold_left _ t ?a) with (rruns P hr rc t a).
@@ -215,6 +224,27 @@ Proof.
     apply G. }
   rewrite B. destruct (ends_clean P hr (fold_right (fun x acc => match x with RBase e0 => e0 :: acc | _ => acc end) [] es) e HP Hm) as (Hc & _). exact Hc.
 Qed.
+
+Definition base_entries (es : list rentry) : list entry := fold_right (fun x acc => match x with RBase e0 => e0 :: acc | _ => acc end) [] es.
+Lemma base_rruns P hr rc es : forall s, base (rruns P hr rc es s) = runs P hr (base_entries es) (base s).
+Proof.
+  induction es as [|x t IH]; intros s; [reflexivity|]. cbn [rruns fold_left]. change (fold_left _ t ?a) with (rruns P hr rc t a).
+  rewrite IH. unfold base_entries. destruct x as [i w|i|e0]; cbn [fold_right].
+  - cbn. destruct (negb (chan_open (base s))); [reflexivity|]. destruct w; reflexivity.
+  - cbn. destruct (existsb (Nat.eqb i) (pend s)); reflexivity.
+  - reflexivity.
+Qed.
+(* and nothing stays registered on a side that has ended - on a tree whose cleanup clears the callback table; on one that does not the
+   table keeps every request that was pending *)
+Theorem ended_nothing_registered P hr rc es e : core_ok P = true -> cleanup_clears_callbacks rc = true -> must_end P e = true ->
+  pend (rstep P hr rc (RBase e) (rruns P hr rc es rfresh)) = [].
+Proof.
+  intros HP Hf Hm. cbn [rstep pend]. rewrite base_rruns. cbn [base rfresh].
+  destruct (ends_clean P hr (base_entries es) e HP Hm) as (_ & _ & Hr & _). rewrite Hr, Hf. reflexivity.
+Qed.
+Theorem ended_registered_refuted P hr rc es e : cleanup_clears_callbacks rc = false ->
+  pend (rstep P hr rc (RBase e) (rruns P hr rc es rfresh)) = pend (rruns P hr rc es rfresh).
+Proof. intros Hf. cbn [rstep pend]. rewrite Hf. now destruct (has_root _). Qed.
 
 (* ---- close() is not atomic: the peer's close request served while close() itself is under way ---- *)
 (* with the guarded handler the closing side comes out clean and close() raises nothing of its own (only what its write or its
